@@ -73,14 +73,17 @@ type admCase struct {
 	Probe    bool    `json:"probe"`     // accepted: a broadcast to the socket's own room arrived
 	Final    viewObs `json:"final"`     // server state at the end of the run (before shutdown)
 	FinalEvt int     `json:"final_evt"` // unexpected packets on the connection: CONNECT/CONNECT_ERROR beyond one per attempt, DISCONNECT, ACK; EVENTs on a never-admitted connection
+	Watchdog bool    `json:"watchdog"`  // a held Join was ended by the watchdog, not by the script: the schedule was not the forced one
 	Slow     bool    `json:"slow"`      // this server's run took so long that heartbeat time-outs may have interfered
 	Note     string  `json:"note,omitempty"`
 
-	mu      sync.Mutex
-	hch     chan struct{}
-	hclosed bool
-	late    chan struct{}   // closed to let the "late" Joins start
-	async   []chan struct{} // one per Join goroutine, closed when it returned
+	mu       sync.Mutex
+	hch      chan struct{}
+	hclosed  bool
+	late     chan struct{} // closed to let the "late" Joins start
+	heldRoom string        // the Join currently held in the adapter (at most one: it holds joinMu)
+	heldDone chan struct{}
+	async    []chan struct{} // one per Join goroutine, closed when it returned
 }
 
 // what the server shows about one socket id at one moment
@@ -145,15 +148,24 @@ func observe(nsp *sio.Namespace, sock sio.ServerSocket, sid string, mw int, k in
 
 // holdAdapter wraps the in-memory adapter: AddAll for a room named "slow..." is held up - the Join
 // that issued it stays in progress (ServerSocket.Join holds the socket's joinMu meanwhile) - until
-// DeleteAll was called for the same socket id, or holdFor has passed.  A deterministic way to keep a
-// Join in progress across the rest of the chain and the clean-up, without any hook.
-const holdFor = 250 * time.Millisecond
+// the rig's script releases it (a channel), or DeleteAll was called for the same socket id.  A
+// deterministic way to keep a Join in progress across the rest of the chain and the clean-up,
+// without any hook.  A watchdog (seconds) ends a hold nobody released; such a case is recorded and
+// counted as indeterminate, never compared.
+const holdWatchdog = 10 * time.Second
+
+// after a rejecting middleware returned, the clean-up runs: the hold ends when DeleteAll is seen
+// (an implementation that leaves the rooms before it waits for the Join) or after this grace
+// period (an implementation whose clean-up waits for the Join: nothing is observable meanwhile)
+const rejectGrace = 300 * time.Millisecond
 
 type holdAdapter struct {
 	adapter.Adapter
-	mu      sync.Mutex
-	entered map[string]chan struct{} // sid|room -> closed when AddAll was entered
-	deleted map[string]chan struct{} // sid -> closed by the first DeleteAll
+	mu       sync.Mutex
+	entered  map[string]chan struct{} // sid|room -> closed when AddAll was entered
+	release  map[string]chan struct{} // sid|room -> closed by the script
+	deleted  map[string]chan struct{} // sid -> closed by the first DeleteAll
+	watchdog map[string]bool          // sid -> a hold was ended by the watchdog
 }
 
 func (a *holdAdapter) ch(m map[string]chan struct{}, key string) chan struct{} {
@@ -167,18 +179,28 @@ func (a *holdAdapter) ch(m map[string]chan struct{}, key string) chan struct{} {
 	return c
 }
 
+func closeOnce(a *holdAdapter, c chan struct{}) {
+	a.mu.Lock()
+	select {
+	case <-c:
+	default:
+		close(c)
+	}
+	a.mu.Unlock()
+}
+
 func (a *holdAdapter) AddAll(sid sio.SocketID, rooms []sio.Room) {
 	for _, room := range rooms {
 		if strings.HasPrefix(string(room), "slow") {
-			e := a.ch(a.entered, string(sid)+"|"+string(room))
+			key := string(sid) + "|" + string(room)
+			closeOnce(a, a.ch(a.entered, key))
 			select {
-			case <-e:
-			default:
-				close(e)
-			}
-			select {
+			case <-a.ch(a.release, key):
 			case <-a.ch(a.deleted, string(sid)):
-			case <-time.After(holdFor):
+			case <-time.After(holdWatchdog):
+				a.mu.Lock()
+				a.watchdog[string(sid)] = true
+				a.mu.Unlock()
 			}
 			break
 		}
@@ -188,20 +210,14 @@ func (a *holdAdapter) AddAll(sid sio.SocketID, rooms []sio.Room) {
 
 func (a *holdAdapter) DeleteAll(sid sio.SocketID) {
 	a.Adapter.DeleteAll(sid)
-	d := a.ch(a.deleted, string(sid))
-	a.mu.Lock()
-	select {
-	case <-d:
-	default:
-		close(d)
-	}
-	a.mu.Unlock()
+	closeOnce(a, a.ch(a.deleted, string(sid)))
 }
 
 func holdAdapterCreator(reg func(nsp *holdAdapter)) adapter.Creator {
 	inner := adapter.NewInMemoryAdapterCreator()
 	return func(store adapter.SocketStore, pc parser.Creator) adapter.Adapter {
-		h := &holdAdapter{Adapter: inner(store, pc), entered: map[string]chan struct{}{}, deleted: map[string]chan struct{}{}}
+		h := &holdAdapter{Adapter: inner(store, pc), entered: map[string]chan struct{}{}, release: map[string]chan struct{}{},
+			deleted: map[string]chan struct{}{}, watchdog: map[string]bool{}}
 		reg(h)
 		return h
 	}
@@ -302,6 +318,10 @@ func newAdmRig(name string, k int) (*admRig, error) {
 			}
 			id := c.ID
 			c.mu.Unlock()
+			if j >= 1 && j <= 4 {
+				// this middleware's own Join (or the Join it starts) needs the socket's joinMu
+				r.finishHeld(c, sid)
+			}
 			switch j {
 			case 1:
 				socket.Join(sio.Room("r" + strconv.Itoa(i)))
@@ -313,10 +333,11 @@ func newAdmRig(name string, k int) (*admRig, error) {
 				// a Join on a goroutine of the middleware's own; the middleware goes on once the
 				// Join is in progress (it has reached the adapter, which holds it up)
 				done := make(chan struct{})
+				room := sio.Room("slow" + strconv.Itoa(i))
 				c.mu.Lock()
 				c.async = append(c.async, done)
+				c.heldRoom, c.heldDone = string(room), done
 				c.mu.Unlock()
-				room := sio.Room("slow" + strconv.Itoa(i))
 				go func() {
 					defer close(done)
 					socket.Join(room)
@@ -335,6 +356,23 @@ func newAdmRig(name string, k int) (*admRig, error) {
 					<-gate
 					socket.Join(room)
 				}()
+			}
+			if v == 0 && i == r.k-1 {
+				// the chain passed: onConnect's Join of the own room needs joinMu next
+				r.finishHeld(c, sid)
+			}
+			if v != 0 {
+				// rejected: the clean-up follows; see rejectGrace
+				c.mu.Lock()
+				room := c.heldRoom
+				c.heldRoom, c.heldDone = "", nil
+				c.mu.Unlock()
+				if room != "" {
+					go func() {
+						time.Sleep(rejectGrace)
+						r.releaseHold(sid, room)
+					}()
+				}
 			}
 			switch v {
 			case 1:
@@ -395,6 +433,48 @@ func (r *admRig) waitEntered(sid, room string) {
 			return
 		case <-time.After(time.Millisecond):
 		}
+	}
+}
+
+// end the hold of (sid, room) in every adapter of the server
+func (r *admRig) releaseHold(sid, room string) {
+	r.hmu.Lock()
+	holds := append([]*holdAdapter{}, r.holds...)
+	r.hmu.Unlock()
+	for _, h := range holds {
+		closeOnce(h, h.ch(h.release, sid+"|"+room))
+	}
+}
+
+func (r *admRig) watchdogHit(sid string) bool {
+	r.hmu.Lock()
+	holds := append([]*holdAdapter{}, r.holds...)
+	r.hmu.Unlock()
+	for _, h := range holds {
+		h.mu.Lock()
+		w := h.watchdog[sid]
+		h.mu.Unlock()
+		if w {
+			return true
+		}
+	}
+	return false
+}
+
+// the script's step "the admission is about to need joinMu": the held Join is let go and has
+// returned before the admission goes on (in the code the admission would wait for exactly that)
+func (r *admRig) finishHeld(c *admCase, sid string) {
+	c.mu.Lock()
+	room, done := c.heldRoom, c.heldDone
+	c.heldRoom, c.heldDone = "", nil
+	c.mu.Unlock()
+	if room == "" {
+		return
+	}
+	r.releaseHold(sid, room)
+	select {
+	case <-done:
+	case <-time.After(mwWait):
 	}
 }
 
@@ -849,6 +929,11 @@ func runAdmServer(name string, k int, conc int, rnd *vk.Rand, nextID *int, perCo
 	slow := time.Since(t0) > 15*time.Second
 	for _, c := range all {
 		c.Slow = slow
+		for _, sid := range c.Sids {
+			if r.watchdogHit(sid) {
+				c.Watchdog = true
+			}
+		}
 		c.Final = r.postView(c)
 		r.mu.Lock()
 		for _, sid := range c.Sids {
